@@ -79,13 +79,19 @@ def scan2(build):
         if (member, target) in objs: return (member, target)
         if target in by_name: return (by_name[target][0], target)
         return None
-    refs = []; initaddrs = []
+    refs = []; initaddrs = []; calls = set()
+    allfuncs = set()
+    for fs in funcs.values(): allfuncs |= fs
     # ---- code: disassembly with relocations
     member = None; func = None; insns = []      # insns of the current function: [addr, mnem, ops, [relocs]]
     def flush(next_addr):
         for i, (addr, mnem, ops, rl) in enumerate(insns):
             nxt = insns[i + 1][0] if i + 1 < len(insns) else next_addr
+            if not rl and func and mnem.startswith(("call", "jmp")):                  # call of a function in the same section: resolved by the assembler, no relocation
+                mm = re.search(r"<([^>+]+)(\+0x[0-9a-f]+)?>", ops)
+                if mm and mm.group(1) != func: calls.add((func, mm.group(1)))
             for (roff, rtype, target, addend) in rl:
+                if target in allfuncs and func: calls.add((func, target))       # direct call / tail call / address of a function
                 if re.match(r"(PLT32|TLS|GOTTPOFF|TPOFF|DTPOFF)", rtype): continue
                 if rtype.startswith("PC") and target in secs.get(member, {}):
                     off = addend + ((nxt - roff) if nxt is not None and 0 < nxt - roff <= 12 else 4)
@@ -133,7 +139,19 @@ def scan2(build):
         for (s2, o, sz, n) in by_member.get(member, []):
             if s2 == sec and o <= hoff < o + sz: holder = n
         initaddrs.append((member, holder, key))
+    scan2.calls = calls
     return objs, refs, initaddrs, sorted(set(anon))
+
+def reach(calls, writers):
+    """functions from which one of `writers` is reachable through direct calls (or address-of-function references)"""
+    rev = {}
+    for a, b in calls: rev.setdefault(b, set()).add(a)
+    seen = set(writers); todo = list(writers)
+    while todo:
+        f = todo.pop()
+        for g in rev.get(f, ()):
+            if g not in seen: seen.add(g); todo.append(g)
+    return seen
 
 def scan(build):
     """compatibility view: (objs {key: (nm-like kind, off)}, written {key: n}, taken {key: n})"""
@@ -169,6 +187,11 @@ def gen_globals(ctx):
     sf = sorted({(key[1], key[0], fn) for (mem, fn, key, kind) in refs if kind == "store"})
     af = sorted({(key[1], key[0], fn) for (mem, fn, key, kind) in refs if kind == "addr"})
     ia = sorted({(key[1], key[0], "%s:%s" % (mem, holder)) for (mem, holder, key) in initaddrs})
+    cells = ["__gmp_allocate_func", "__gmp_reallocate_func", "__gmp_free_func", "__gmp_default_fp_limb_precision", "__gmp_errno", "__gmp_rands", "__gmp_rands_initialized"]
+    cr = []
+    for c in cells:
+        ws = {fn for (mem, fn, key, kind) in refs if key[1] == c and kind in ("store", "addr")}
+        cr += [(c, f) for f in sorted(reach(scan2.calls, ws))]
     def tbl(name, doc, xs):
         return "/-- %s -/\ndef %s : List (String × String × String) := [\n%s\n]\n" % (doc, name, ",\n".join("  (%s, %s, %s)" % tuple(lean_str(x) for x in t) for t in xs))
     txt = ("-- GENERATED by tools/gen_globals.py from the library built from the working tree — do not edit.\n"
@@ -178,6 +201,8 @@ def gen_globals(ctx):
            + tbl("storeFuncs", "(object, archive member of the object, function symbol) for every function of the library that contains an instruction storing directly to the object", sf) + "\n"
            + tbl("addrFuncs", "(object, member, function symbol) for every function that materialises the address of the object (lea / GOT / absolute)", af) + "\n"
            + tbl("initAddrs", "(object, member, holder) for every address of a writable object placed in initialised data (static initialiser)", ia)
+           + "\n/-- (documented cell, function symbol) for every function of the library from which a function that stores to the cell, or\n    materialises its address, is reachable through direct calls (relocations against function symbols; `__gmp_junk` left out) -/\n"
+           + "def cellReach : List (String × String) := [\n" + ",\n".join("  (%s, %s)" % (lean_str(a), lean_str(b)) for a, b in cr) + "\n]\n"
            + "end Mpir.Gen\n")
     p = os.path.join(vlib.LEAN, "Mpir", "Gen", "Globals.lean")
     return [p] if vlib.write_if_changed(p, txt) else []
